@@ -57,5 +57,9 @@ def run(tier: str) -> int:
             ks = p_list(t, p_node)
             nt = any(has_inline_part(k) for k in ks) or len(ks) > 1
         ck.add(l, im, nontrivial=nt, tag=opn)
+    import histories
+    for l, im in histories.render_history_cases(ck.rng, ck.budget(1500, 20000), all_fns=fns):
+        ck.add(l, im, nontrivial=True, tag="render_after_edits")
+    ck.exhaustive_scopes.append({"scope": "render – edit in place through the public API – render again histories (stale-state detection)", "exhaustive": False})
     ck.correspond(holds=True)
     return ck.finish()
